@@ -50,12 +50,14 @@ func (info *decodeInfo) decodeCharString(code []byte, name string) (*Glyph, erro
 	var LsbX funit.Int16 // TODO(voss): use float64
 	var LsbY funit.Int16
 	isClosed := true
+	inFlex := false
 	rClosePath := func() {
 		res.Cmds = append(res.Cmds, GlyphOp{Op: OpClosePath})
 		isClosed = true
 	}
 	rMoveTo := func(dx, dy float64) {
-		if !isClosed {
+		if !isClosed && !inFlex {
+			// (the rmoveto commands of a flex sequence do not start a new sub-path)
 			rClosePath()
 		}
 		posX += dx
@@ -409,8 +411,10 @@ glyphLoop:
 						return nil, errIncomplete
 					}
 					postscriptStack = postscriptStack[:len(postscriptStack)-1]
+					inFlex = false
 				case 1: // flex start (0 args)
 					flexData = flexData[:0]
+					inFlex = true
 				case 2: // flex coordinate pair (0 args)
 					flexData = append(flexData, posX, posY)
 					if len(res.Cmds) > 0 {
